@@ -208,8 +208,9 @@ func tags(h History) (tags []string, nontrivial bool) {
 				overlap = true
 			}
 			ei, ej := Epoch(h, i), Epoch(h, j)
-			// stale re-delivery: run j, of the epoch that run i's housekeeping deletes, starts after run i started
-			if ei == ej+2 && tj.Start > ti.Start {
+			// stale re-delivery: run j, of an epoch that run i's housekeeping deletes (every epoch below
+			// epoch-1), starts after run i started
+			if ei >= ej+2 && tj.Start > ti.Start {
 				set["stale-epoch-redelivery"] = true
 			}
 			if tj.Start > ti.Start {
